@@ -157,6 +157,39 @@ fn unsafe_getgid() -> u32 {
     std::fs::metadata("/proc/self").map(|m| std::os::unix::fs::MetadataExt::gid(&m)).unwrap_or(0)
 }
 
+/// Directed, real code + the property's oracle: things named `CACHEDIR.TAG` that are NOT a cache tag — a
+/// directory of that name, a symlink of that name pointing at itself, an empty file, a file with other content.
+/// None marks its directory as a cache; everything is backed up and restored, with no error.  (A properly signed
+/// tag does exclude its directory: "cache-tagged directories aside".)
+fn cachedir_tag_lookalikes(report: &mut Report) {
+    let work = tempfile::tempdir().expect("tempdir");
+    let (src, arch) = (work.path().join("src"), work.path().join("arch"));
+    for d in ["proj/CACHEDIR.TAG/inner", "loop", "empty-tag", "wrong-tag", "plain"] {
+        std::fs::create_dir_all(src.join(d)).unwrap();
+    }
+    std::fs::write(src.join("proj/CACHEDIR.TAG/inner/f"), b"inside a directory named like a tag").unwrap();
+    std::fs::write(src.join("proj/data"), b"proj data").unwrap();
+    std::os::unix::fs::symlink("CACHEDIR.TAG", src.join("loop/CACHEDIR.TAG")).unwrap();
+    std::fs::write(src.join("loop/data"), b"loop data").unwrap();
+    std::fs::write(src.join("empty-tag/CACHEDIR.TAG"), b"").unwrap();
+    std::fs::write(src.join("empty-tag/data"), b"e data").unwrap();
+    std::fs::write(src.join("wrong-tag/CACHEDIR.TAG"), b"Signature: not the one").unwrap();
+    std::fs::write(src.join("wrong-tag/data"), b"w data").unwrap();
+    std::fs::write(src.join("plain/data"), b"p data").unwrap();
+    create_archive(&arch);
+    let r = real_backup(&arch, &src, &BackupParams::default(), IceptConfig::default());
+    let (rr, robs) = crate::hist::restore_observe(&arch, work.path(), &Sel::Latest, "tags");
+    report.case("cachedir-tag-lookalikes", true);
+    report.hit("directed:cachedir-tag-lookalikes");
+    let case = json!({"directed": "CACHEDIR.TAG as a directory, as a self-referring symlink, empty, with another signature"});
+    if !r.result.starts_with("result ok") || !r.result.contains(" errors=0") || !rr.result.starts_with("result ok") || !rr.events.is_empty() {
+        report.oracle_fail("restore-not-clean-tag-lookalikes", case.clone(), "backup or restore of a tree with CACHEDIR.TAG look-alikes reported errors", json!({"backup": trunc(&r.result), "restore": trunc(&rr.result)}));
+    }
+    if let Some(d) = tree_diff(&observe(&src), &robs) {
+        report.oracle_fail("restored-tree-differs-tag-lookalikes", case, "a directory holding something merely NAMED CACHEDIR.TAG was not backed up and restored like any other", d);
+    }
+}
+
 /// Directed, real code + oracle only (no model run: the byte-list model is not meant for megabytes): sizes and
 /// shapes the random generator never reaches — files of several MiB around block-size multiples with default-like
 /// options, a 255-byte name, forty levels of nesting, a directory with 3000 entries.
@@ -222,6 +255,7 @@ pub fn run(tier: &str, seed: u64, report: &mut Report) {
     let thorough = tier == "thorough";
     far_future_mtime(report);
     half_named_owner(report);
+    cachedir_tag_lookalikes(report);
     large_scale(seed, false, report);
     large_scale(seed, true, report);
     let n_cases = if thorough { 1500 } else { 120 };
